@@ -3,7 +3,7 @@
    the Datadog body.
    Only pinned statements, closed by [exact lemma], with Print Assumptions. *)
 From Coq Require Import List NArith Bool.
-From FT Require Import Model.Jaeger Model.Reporters Proofs.JaegerProofs Proofs.ReportersProofs.
+From FT Require Import Model.Jaeger Model.Reporters Proofs.JaegerProofs Proofs.ReportersProofs Proofs.DatadogProofs.
 Import ListNotations.
 Open Scope N_scope.
 
@@ -69,6 +69,41 @@ Theorem C19_otel_convert_faithful :
     map (fun e => (je_name e, je_ts e, je_props e)) (jr_events r).
 Proof. exact otel_convert_faithful. Qed.
 
+(* msgpack: signed integers (start, duration as i64) of every size class and both signs *)
+Theorem C19_msgpack_sint_roundtrip :
+  forall v rest, v < two64j -> rd_int (mp_sint v ++ rest) = Some (v, rest).
+Proof. exact rd_sint_roundtrip. Qed.
+
+(* Datadog: the WHOLE request body reads back to exactly the spans it was made from (every
+   field of every span, the optional meta map with its pairs in order, nothing left over),
+   for every batch whose strings are shorter than 2^32 bytes and whose integers fit 64 bits;
+   hence two different batches never produce the same body *)
+Theorem C19_datadog_body_roundtrip :
+  forall spans, N.of_nat (length spans) < two32 -> Forall dd_ok spans ->
+    rd_dd_body (enc_dd_body spans) = Some spans.
+Proof. exact rd_dd_body_roundtrip. Qed.
+
+Theorem C19_datadog_body_injective :
+  forall a b, N.of_nat (length a) < two32 -> Forall dd_ok a ->
+              N.of_nat (length b) < two32 -> Forall dd_ok b ->
+              enc_dd_body a = enc_dd_body b -> a = b.
+Proof. exact enc_dd_body_injective. Qed.
+
+Theorem C19_datadog_convert_wellformed :
+  forall service resource ty r m,
+    str_ok service -> str_ok resource -> str_ok ty -> str_ok (jr_name r) ->
+    jr_begin r < two64j -> jr_dur r < two64j -> jr_id r < two64j -> jr_parent r < two64j ->
+    N.of_nat (length m) < two32 -> Forall pair_ok m ->
+    dd_ok (dd_convert service resource ty r m).
+Proof. exact dd_convert_ok. Qed.
+
+(* the hypotheses are met by a span with a negative-looking start, a top-bit id and a meta map *)
+Example C19_datadog_body_roundtrip_nonvacuous :
+  let s := mkDD [104;105] [] [119] [240;159] 18446744073709551615 300
+                (Some [([107], [118]); ([], [0])]) 9223372036854775808 1 0 in
+  rd_dd_body (enc_dd_body [s; s]) = Some [s; s].
+Proof. vm_compute. reflexivity. Qed.
+
 Print Assumptions C19_datadog_convert_faithful.
 Print Assumptions C19_msgpack_uint_roundtrip.
 Print Assumptions C19_msgpack_str_roundtrip.
@@ -77,3 +112,7 @@ Print Assumptions C19_jaeger_convert_faithful.
 Print Assumptions C19_jaeger_microseconds.
 Print Assumptions C19_i64_field_roundtrip.
 Print Assumptions C19_varint_roundtrip.
+Print Assumptions C19_msgpack_sint_roundtrip.
+Print Assumptions C19_datadog_body_roundtrip.
+Print Assumptions C19_datadog_body_injective.
+Print Assumptions C19_datadog_convert_wellformed.
